@@ -81,6 +81,9 @@ type kJSONPtr struct {
 	Ps *string `parquet:"ps,json"`
 }
 type kRawString struct{ A json.RawMessage }
+type kRawNull struct {
+	B json.RawMessage `parquet:"b,json,optional"`
+}
 
 func knownCases() []knownCase {
 	one := int32(1)
@@ -131,6 +134,15 @@ func knownCases() []knownCase {
 			run:    func() (a, b, c []string) { return threePaths([]kRawString{{A: json.RawMessage(`"s"`)}}) },
 			pinned: func(d, t, r []string) bool {
 				return d[0] == "c0=x227322:r0:d0" && t[0] == "c0=x73:r0:d0" && r[0] == "c0=x73:r0:d0"
+			},
+		},
+		{
+			id:     "rawmessage-json-null-typed",
+			input:  "struct{B json.RawMessage `parquet:\"b,json,optional\"`}: row {`null`}; SchemaOf: optional binary b (JSON)",
+			expect: []string{"c0=N:r0:d0"},
+			run:    func() (a, b, c []string) { return threePaths([]kRawNull{{B: json.RawMessage(`null`)}}) },
+			pinned: func(d, t, r []string) bool {
+				return d[0] == "c0=N:r0:d0" && t[0] == "c0=x6e756c6c:r0:d1" && r[0] == "c0=N:r0:d0"
 			},
 		},
 	}
